@@ -507,26 +507,87 @@ func (e *Env) RDiscovery() {
 		}
 		return true
 	})
-	okIdent := false
-	if identArm != nil {
-		var body []string
-		for _, st := range identArm.Body {
-			body = append(body, stmtNorm(c, st))
+	undo := c.InstallReachingIn(lit.Body)
+	defer undo()
+	// stores of an arm: target text → path condition inside the arm (several stores to one target: or)
+	stores := func(arm *ast.CaseClause) (map[string]string, bool) {
+		out := map[string]string{}
+		good := true
+		for _, st := range arm.Body {
+			ast.Inspect(st, func(n ast.Node) bool {
+				as, ok := n.(*ast.AssignStmt)
+				if !ok || len(as.Lhs) != len(as.Rhs) {
+					return true
+				}
+				for i, l := range as.Lhs {
+					if _, isIdx := l.(*ast.IndexExpr); !isIdx {
+						continue
+					}
+					cond, okc := pathCond(c, arm.Body, as)
+					if !okc {
+						good = false
+					}
+					if cond == "" {
+						cond = "true"
+					}
+					k := c.ExprStr(l) + " = " + c.ExprStr(as.Rhs[i])
+					if prev, seen := out[k]; seen {
+						cond = "(" + prev + ") || (" + cond + ")"
+					}
+					out[k] = cond
+				}
+				return true
+			})
 		}
-		got := strings.Join(body, " ; ")
-		okIdent = got == `if n.Path == "" { return true; } ; if n.Path == r.Path { return true; } ; packagesInUse[n.Path] = true ; importsRequired[n.Path] = true`
-		e.Run.Check("R-DISC", "every identifier with a non-empty, non-local path is recorded as in use and required", e.Prog.Pos(identArm.Pos()), okIdent, "Ident arm: "+got)
+		return out, good
+	}
+	checkStores := func(arm *ast.CaseClause, what string, want map[string]string) {
+		got, good := stores(arm)
+		if !good {
+			e.Run.Undecided("R-DISC", what, e.Prog.Pos(arm.Pos()), "path condition of a store not computable")
+			return
+		}
+		ok := true
+		var why []string
+		for k, w := range want {
+			g, has := got[k]
+			if !has {
+				ok = false
+				why = append(why, "no store `"+k+"`")
+				continue
+			}
+			eq, dec := equivalentGuards(g, w)
+			if !dec {
+				e.Run.Undecided("R-DISC", what, e.Prog.Pos(arm.Pos()), "condition of `"+k+"` is not propositional: "+g)
+				return
+			}
+			if !eq {
+				ok = false
+				why = append(why, "`"+k+"` happens under `"+g+"`, specified `"+w+"`")
+			}
+		}
+		for k := range got {
+			if _, has := want[k]; !has {
+				ok = false
+				why = append(why, "unexpected store `"+k+"`")
+			}
+		}
+		e.Run.Check("R-DISC", what, e.Prog.Pos(arm.Pos()), ok, strings.Join(why, "; "))
+	}
+	if identArm != nil {
+		checkStores(identArm, "every identifier with a non-empty, non-local path is recorded as in use and required", map[string]string{
+			"packagesInUse[n.Path] = true":   `n.Path != "" && n.Path != r.Path`,
+			"importsRequired[n.Path] = true": `n.Path != "" && n.Path != r.Path`,
+		})
 	} else {
 		e.Run.Violation("R-DISC", "scan has an *dst.Ident arm", e.Prog.Pos(lit.Pos()), "missing")
 	}
 	if specArm != nil {
-		var body []string
-		for _, st := range specArm.Body {
-			body = append(body, stmtNorm(c, st))
-		}
-		got := strings.Join(body, " ; ")
-		e.Run.Check("R-DISC", "every import spec is recorded with its alias; the cgo import is always kept", e.Prog.Pos(specArm.Pos()),
-			strings.Contains(got, `importsFound[path] = ""`) && strings.Contains(got, "importsFound[path] = n.Name.Name") && strings.Contains(got, `if path == "C" { importsRequired["C"] = true; }`), "ImportSpec arm: "+got)
+		checkStores(specArm, "every import spec is recorded with its alias; the cgo import is always kept", map[string]string{
+			`importsFound[mustUnquote(n.Path.Value)] = ""`:          `n.Name == nil`,
+			`importsFound[mustUnquote(n.Path.Value)] = n.Name.Name`: `n.Name != nil`,
+			`importsRequired["C"] = true`:                           `mustUnquote(n.Path.Value) == "C"`,
+		})
 	} else {
 		e.Run.Violation("R-DISC", "scan has an *dst.ImportSpec arm", e.Prog.Pos(lit.Pos()), "missing")
 	}
